@@ -589,6 +589,23 @@ def _gen_points(ctx, kind, ll):
         dec0 = rng.uniform(-80, 80)
         ra = [rng.uniform(0, 360) for _ in range(n)]
         dec = [dec0 + rng.uniform(-2 * ll, 2 * ll) for _ in range(n)]
+    elif kind == 'threshold':
+        # a chain whose consecutive separations are L*(1 +- eps), eps from 1e-7 to 3e-3: links just inside the linking
+        # length must hold, separations just outside must not link (decides e.g. a chord / arc mix-up, which shows
+        # only for separations in (L, L*(1 + L^2/24)] - a window of 1e-4..1e-2 relative for L of a few degrees)
+        n = rng.randrange(3, 12)
+        along_dec = rng.random() < 0.6
+        ra0, dec0 = rng.uniform(0, 360), (rng.uniform(-60, 60 - n * ll) if along_dec else 0.0)
+        ra, dec = [ra0], [dec0]
+        for _ in range(n - 1):
+            eps = rng.choice([1e-7, 1e-6, 1e-5, 1e-4, 3e-4, 1e-3, 3e-3]) * rng.choice([1, 1, -1])
+            step = ll * (1 + eps)
+            if along_dec:
+                ra.append(ra0)
+                dec.append(dec[-1] + step)        # on a meridian the separation is the declination difference
+            else:
+                ra.append(ra[-1] + step)          # on the equator the separation is the RA difference
+                dec.append(0.0)
     else:
         raise ValueError(kind)
     ra, dec = _wrap(ra), _clipdec(dec)
@@ -658,7 +675,7 @@ def _bound_cells(ra, dec, ll, cs, csk, limit=20000):
 def _sphere_cases(ctx, count):
     rng = ctx.rng
     cases = []
-    kinds = ['chain', 'chain', 'seam', 'polar', 'allsky', 'blobs', 'dups', 'band', 'lattice', 'lattice']
+    kinds = ['chain', 'chain', 'seam', 'polar', 'allsky', 'blobs', 'dups', 'band', 'lattice', 'lattice', 'threshold']
     tries = 0
     while len(cases) < count and tries < 20 * count:
         tries += 1
@@ -668,6 +685,8 @@ def _sphere_cases(ctx, count):
             ll = rng.choice([3.0, 6.0, 10.0, 14.0, 20.0]) * rng.uniform(0.8, 1.0)
         if kind == 'polar' and rng.random() < 0.5:
             ll = rng.choice([0.2, 0.5, 1.0, 2.0]) * rng.uniform(0.8, 1.25)
+        if kind == 'threshold':
+            ll = rng.choice([0.5, 2.0, 3.0, 5.0, 8.0]) * rng.uniform(0.8, 1.25)
         csk = rng.choice(['none', 'none', 'min', 'below', 'x1.5', 'x3', 'x10', 'abs'])
         cs = {'none': None, 'min': 4.0 * ll, 'below': ll * rng.uniform(0.5, 3.9), 'x1.5': 6.0 * ll, 'x3': 12.0 * ll * rng.uniform(0.7, 1.3),
               'x10': 40.0 * ll, 'abs': rng.uniform(0.2, 60.0)}[csk]
